@@ -592,6 +592,7 @@ def _shared_slot_position(prog):
 
 
 SELFTESTS = [
+    (rule_every_volume_is_trimmed, ["c17_trim_bad.cc"], ["c17_trim_good.cc"], "set_next_sector"),
     (rule_view_limit_is_own_geometry, ["c04_mmb_bad.cc"], ["c04_mmb_good.cc"], "FileView#"),
     (rule_bounds, ["c17_bad.cc"], ["c17_good.cc"], "Access::read_block"),
     (rule_volume_extent, ["c17_vol_bad.cc"], ["c17_vol_good.cc"], "Volume#1"),
